@@ -409,7 +409,11 @@ func judge(sc *scenario, o *outcome) (v verdict) {
 	// "Dial returns once the context ends or the configured dial timeout
 	// elapses, whichever is first". Virtual time makes this exact: the clock
 	// only moves while Dial is blocked.
-	if v.HasBound && (o.Rescued || o.TR > v.Bound) {
+	slack := time.Duration(0)
+	if sc.Peer.SlowDL {
+		slack = dlSlack // the conn's own latency in applying a deadline
+	}
+	if v.HasBound && (o.Rescued || o.TR > v.Bound+slack) {
 		v.Violation = fmt.Sprintf("Dial was due to return at %v (%s) but returned at %v (watchdog fired: %v)", v.Bound, v.BoundKind, o.TR, o.Rescued)
 		return
 	}
@@ -466,9 +470,16 @@ func judge(sc *scenario, o *outcome) (v verdict) {
 		}
 	}
 	if v.MustCtx {
+		// With slow Set*Deadline calls the watcher may still be applying the
+		// poison while the handshake reads on; a response that is wrong in
+		// itself is then reported as such ("the error is that error").
+		ownFailure := sc.Peer.SlowDL && o.Err != nil && !isNetTimeout(o.Err) &&
+			(sc.Peer.Resp != "valid" || sc.Peer.Deliver >= 0 || sc.Peer.EOF)
 		switch {
 		case o.CtxErrAtReturn == nil:
 			v.Infra = "harness inconsistency: the context should have ended before Dial returned but ctx.Err() was nil"
+		case ownFailure && !errors.Is(o.Err, o.CtxErrAtReturn):
+			v.Open = "handshake-failed-by-itself-while-poison-in-flight"
 		case o.Err == nil:
 			v.Violation = fmt.Sprintf("the context ended (%v) before the handshake I/O finished, yet Dial returned a nil error", o.CtxErrAtReturn)
 		case !errors.Is(o.Err, o.CtxErrAtReturn):
@@ -502,7 +513,7 @@ func judge(sc *scenario, o *outcome) (v verdict) {
 			v.NonTriv = true
 		case o.CancelAt >= 0 && (pl.Kind == "io" || pl.Kind == "dial-return"):
 			v.NonTriv = true
-		case v.HasBound && o.TR == v.Bound && o.ObtainedAt <= v.Bound && pl.Kind != "pre":
+		case v.HasBound && o.TR >= v.Bound && o.ObtainedAt <= v.Bound && pl.Kind != "pre":
 			v.NonTriv = true
 		}
 	}
